@@ -12,14 +12,21 @@ import (
 func New() *Handler {
 	return &Handler{
 		m:        new(sync.Mutex),
-		requests: map[int64]chan event{},
+		requests: map[int64]client{},
 	}
 }
 
 type Handler struct {
 	m        *sync.Mutex
 	counter  int64
-	requests map[int64]chan event
+	requests map[int64]client
+}
+
+// client is a connected browser: events carries the events to its handler, done is closed when the
+// handler exits, so that pending deliveries give up instead of sending on a channel nobody reads.
+type client struct {
+	events chan event
+	done   chan struct{}
 }
 
 type event struct {
@@ -32,17 +39,20 @@ func (s *Handler) Send(eventType string, data string) {
 	s.m.Lock()
 	defer s.m.Unlock()
 	verifEvent("send", 0, nil, data)
-	for _, f := range s.requests {
-		f := f
-		verifEvent("spawn", 0, f, data)
-		go func(f chan event) {
-			verifEvent("gate", 0, f, data)
-			f <- event{
+	for _, c := range s.requests {
+		c := c
+		verifEvent("spawn", 0, c.events, data)
+		go func(c client) {
+			verifEvent("gate", 0, c.events, data)
+			select {
+			case c.events <- event{
 				Type: eventType,
 				Data: data,
+			}:
+			case <-c.done:
 			}
-			verifEvent("dend", 0, f, data)
-		}(f)
+			verifEvent("dend", 0, c.events, data)
+		}(c)
 	}
 }
 
@@ -56,7 +66,8 @@ func (s *Handler) ServeHTTP(w http.ResponseWriter, r *http.Request) {
 	id := atomic.AddInt64(&s.counter, 1)
 	s.m.Lock()
 	events := make(chan event)
-	s.requests[id] = events
+	done := make(chan struct{})
+	s.requests[id] = client{events: events, done: done}
 	verifEvent("register", id, events, "")
 	s.m.Unlock()
 	defer func() {
@@ -65,7 +76,7 @@ func (s *Handler) ServeHTTP(w http.ResponseWriter, r *http.Request) {
 		defer s.m.Unlock()
 		delete(s.requests, id)
 		verifEvent("unregister", id, events, "")
-		close(events)
+		close(done)
 	}()
 
 	timer := time.NewTimer(0)
